@@ -26,7 +26,7 @@ PROPS = {
         "text": "CRC-32 single-byte-change detection proved for all inputs; alteration sweep on real archives",
     },
     "C06": {
-        "lean": ["PnaVerif.Props.Consts", "PnaVerif.Props.C06", "PnaVerif.Props.C06Archive"],
+        "lean": ["PnaVerif.Props.Consts", "PnaVerif.Props.C06", "PnaVerif.Props.C06Archive", "PnaVerif.Props.C04Multipart"],
         "families": ["truncate", "cli-truncate", "concat"],
         "cli": True,
         "trusted": COMMON_TRUST,
@@ -89,14 +89,14 @@ PROPS = {
         "text": "data-flow structure proved (plaintext only through E / XOR keystream, PHSF without hash, one salt+IV draw per context); leakage and freshness sampled",
     },
     "C04": {
-        "lean": ["PnaVerif.Props.Consts", "PnaVerif.Props.C04"],
+        "lean": ["PnaVerif.Props.Consts", "PnaVerif.Props.C04", "PnaVerif.Props.C04Multipart"],
         "families": ["split", "concat"],
         "cli": True,
         "trusted": COMMON_TRUST,
         "text": "size limit, losslessness, termination/rejection proved for all archives and all maxima; split family: every max around the overhead on real archives, parts re-read",
     },
     "C10": {
-        "lean": ["PnaVerif.Props.Consts", "PnaVerif.Props.C10", "PnaVerif.Props.C10Mode"],
+        "lean": ["PnaVerif.Props.Consts", "PnaVerif.Props.C10", "PnaVerif.Props.C10Mode", "PnaVerif.Props.C10Target"],
         "families": ["edit", "fault", "cli-codec"],
         "cli": True,
         "trusted": COMMON_TRUST + ["globset (selection) and the system user database (chown) enter as oracle answers", "clap argument parsing"],
